@@ -236,12 +236,12 @@ impl Check for C07 {
         }
         // (d) halfway and near-halfway cases from f64 bit patterns
         let mut r = g.rng(7);
-        let n = g.count(60_000, 6_000_000);
+        let n = g.count(60_000, 1_200_000);
         for _ in 0..n {
             emit(Case::with("halfway", vec![], &[r.next() as i64]));
         }
         // (e..h) hostile and random literals
-        let n = g.count(400_000, 40_000_000);
+        let n = g.count(400_000, 12_000_000);
         let per = 256;
         for _ in 0..(n / per).max(1) {
             emit(Case::with("hostile", vec![], &[r.next() as i64, per as i64]));
